@@ -107,7 +107,8 @@ def fit_case(draw):
     return dict(n=n, nc=nc, fn=fn, x=x, zeros=zeros, use_ia=use_ia, fixed=fixed, inputans=[2 * draw(uf) for _ in range(nc)],
                 truth=[2 * draw(uf) for _ in range(nc)], ykind=draw(st.sampled_from(['exact', 'noisy', 'noisy'])),
                 noise=[draw(uf) for _ in range(8)], inputfunc=draw(st.sampled_from([False, False, True])), wvary=draw(st.booleans()),
-                xform=draw(st.sampled_from(['f8', 'f8', 'f8', '>f8', 'f4', 'i8', 'f4-y-f4'])))
+                xform=draw(st.sampled_from(['f8', 'f8', 'f8', '>f8', 'f4', 'i8', 'f4-y-f4'])),
+                wscale=draw(st.sampled_from([1.0, 1.0, 1.0, 1e-70, 1e-30, 1e30])))
 
 
 def fit_body(case):
@@ -126,6 +127,10 @@ def fit_body(case):
     x = xarg.astype('f8')
     w = (0.5 + 1.5 * np.abs(np.sin(np.arange(n) * 1.3))) if case['wvary'] else np.ones(n)
     w[case['zeros']] = 0.0
+    # inverse variances in the units of the data (fluxes of 1e-17 have weights of 1e34, ...): a common factor does not change the fit
+    w = w * case.get('wscale', 1.0)
+    if case.get('wscale', 1.0) != 1.0:
+        note_label('weights-rescaled')
     B = ref_basis(fn.lstrip('f') if fn.startswith('f') and fn != 'fpoly' else ('poly' if fn == 'fpoly' else fn), x, nc).T   # (n, nc)
     ifn = None
     if case['inputfunc']:
@@ -247,13 +252,19 @@ def tset_case(draw):
         jp = dict(xjumplo=lo, xjumphi=hi, xjumpval=draw(st.sampled_from([0.5, -1.25, 3.0, 0.0])))
     return dict(ntr=ntr, nx=nx, nc=nc, func=func, xkind=xkind, rows=rows, coeff=coeff, jump=jp, ykind=draw(st.sampled_from(['exact', 'noisy'])),
                 xminmax=draw(st.sampled_from([None, None, 'wider', 'xmin-only', 'xmax-only'])), rerange=draw(st.sampled_from([None, None, [2.0, 3.0], [0.0, 10.0]])), zeros=draw(st.lists(st.integers(0, ntr * nx - 1), max_size=5, unique=True)),
-                noise=[draw(uf) for _ in range(8)], xdtype=draw(st.sampled_from(['f8', 'f8', 'i8', 'i4'])) if xkind == 'grid' else 'f8')
+                noise=[draw(uf) for _ in range(8)], xorder=draw(st.sampled_from(['asc', 'asc', 'desc', 'shuffled'])), xdtype=draw(st.sampled_from(['f8', 'f8', 'i8', 'i4'])) if xkind == 'grid' else 'f8')
 
 
 def tset_body(case):
     from pydl.pydlutils.trace import xy2traceset, traceset2xy, TraceSet
     ntr, nx, nc, func = case['ntr'], case['nx'], case['nc'], case['func']
     X = np.array(case['rows'], dtype='f8')
+    # the positions of a trace need not be listed in ascending order
+    if case.get('xorder') == 'desc':
+        X = X[:, ::-1].copy()
+    elif case.get('xorder') == 'shuffled':
+        X = X[:, np.argsort((np.sin(np.arange(nx) * 12.9898) * 43758.5453) % 1.0)].copy()
+    note_label('xorder:' + case.get('xorder', 'asc'))
     kw = dict(ncoeff=nc, func=func, maxiter=0)
     if case['xminmax'] == 'wider':
         kw.update(xmin=float(X.min()) - 2.0, xmax=float(X.max()) + 3.0)
